@@ -9,7 +9,7 @@ cd $W
 git apply $S/demo.diff || { echo "demo.diff does not apply"; exit 2; }
 sh $S/run_demo.sh > $W/demo_base.log 2>&1; a=$?
 git apply $S/patch.diff || { echo "patch.diff does not apply"; exit 2; }
-cargo test --workspace --offline --no-fail-fast -- --skip seed_demo > $W/suite.log 2>&1; b=$?
+cargo test --workspace --offline --no-fail-fast --lib --bins -- --skip seed_demo > $W/suite.log 2>&1; b=$?
 npass=$(grep -E "^test result" $W/suite.log | awk '{s+=$4} END {print s}')
 sh $S/run_demo.sh > $W/demo_patched.log 2>&1; c=$?
 echo "$1 base=$BASE demo_on_base=$a suite_with_patch=$b (passed=$npass) demo_with_patch=$c"
